@@ -24,6 +24,19 @@ def qmag(v):
     return v.val if isinstance(v, Qty) else v
 
 
+def _free_vars(t):
+    out, todo, seen = set(), [t], set()
+    while todo:
+        x = todo.pop()
+        if x.get_id() in seen:
+            continue
+        seen.add(x.get_id())
+        if z3.is_const(x) and x.decl().kind() == z3.Z3_OP_UNINTERPRETED:
+            out.add(x)
+        todo.extend(x.children())
+    return out
+
+
 class StubsLib(StubsBase):
     def __init__(self):
         super().__init__()
@@ -471,10 +484,42 @@ class StubsLib(StubsBase):
         return A.take(ctx, a, index, axis)
 
     def np_stack(self, ctx, arrs, axis=0):
+        from .values import SSeq
+        if isinstance(arrs, SSeq):
+            return self.stack_sym(ctx, arrs, axis)
         arrs = self.interp.iterate(arrs, ctx)
         if arrs and all(isinstance(a, Qty) for a in arrs):
             return Qty(A.stack(ctx, [a.val for a in arrs], axis), arrs[0].dim, arrs[0].unit)
         return A.stack(ctx, arrs, axis)
+
+    def stack_sym(self, ctx, sq, axis):
+        """np.stack of a symbolic-length sequence of equally shaped arrays (shape must not depend on the index)."""
+        t = sq.template if sq.template is not None else sq.item(ctx.fresh("probe", "int"))
+        unit = None
+        if isinstance(t, Qty):
+            unit, t = (t.dim, t.unit), t.val
+        if V.is_num(t) or isinstance(t, Cx):
+            t = SArr((), lambda ix: t, A.scalar_dtype(t))
+        if not isinstance(t, SArr):
+            raise Unsupported(f"np.stack of a symbolic-length sequence of {type(t).__name__}")
+        if sq.iota is not None:
+            names = {str(sq.iota)}
+            for d in t.shape:
+                if is_sym(d) and names & {str(v) for v in _free_vars(V.Z(d))}:
+                    raise Unsupported("np.stack: element shape depends on the element index")
+        ax = axis if axis >= 0 else axis + t.ndim + 1
+        if not 0 <= ax <= t.ndim:
+            raise PyExc("AxisError", "axis out of bounds")
+        shape = t.shape[:ax] + (sq.n,) + t.shape[ax:]
+
+        def elem(ix):
+            it = sq.item(ix[ax])
+            if isinstance(it, Qty):
+                it = it.val
+            rest = ix[:ax] + ix[ax + 1:]
+            return it.elem(rest) if isinstance(it, SArr) else it
+        out = SArr(shape, elem, t.dtype, t.backend)
+        return Qty(out, unit[0], unit[1]) if unit else out
 
     def np_concatenate(self, ctx, arrs, axis=0):
         arrs = self.interp.iterate(arrs, ctx)
@@ -887,7 +932,23 @@ class StubsLib(StubsBase):
             return A.elementwise(ctx, lambda x: V.Ite(V.le(0, x), x, V.neg(x)), [v], v.dtype)
         return super().abs_hook(v, ctx)
 
+    def iterate_sym(self, v, ctx):
+        from .values import SSeq
+        if isinstance(v, SSeq):
+            return v
+        if isinstance(v, SArr) and v.ndim >= 1 and is_sym(v.shape[0]):
+            if v.backend == "dask":
+                ctx.events.append(("force", "iteration over a dask array"))
+            return SSeq(v.shape[0], (lambda i: A.getitem(ctx, v, i)) if v.ndim > 1 else (lambda i: v.elem((i,))))
+        if isinstance(v, Qty) and isinstance(v.val, SArr) and v.val.ndim >= 1 and is_sym(v.val.shape[0]):
+            inner = self.iterate_sym(v.val, ctx)
+            return SSeq(inner.n, lambda i: Qty(inner.item(i), v.dim, v.unit))
+        return None
+
     def iterate(self, v, ctx):
+        from .values import SSeq
+        if isinstance(v, SSeq):
+            raise Unsupported("sequential iteration over a sequence of symbolic length (needs a loop contract)")
         if isinstance(v, STime) and not v.is_scalar:
             n = v.sec.shape[0]
             if is_sym(n) or v.sec.ndim != 1:
